@@ -312,3 +312,13 @@ func isBool(t types.Type) bool {
 	b, ok := types.Unalias(t).Underlying().(*types.Basic)
 	return ok && b.Info()&types.IsBoolean != 0
 }
+
+// isIfaceT: a genuine interface type (a type parameter's underlying type is its constraint interface, but
+// values of type-parameter type are not interface values)
+func isIfaceT(t types.Type) bool {
+	if _, isTP := types.Unalias(t).(*types.TypeParam); isTP {
+		return false
+	}
+	_, ok := t.Underlying().(*types.Interface)
+	return ok
+}
